@@ -4,7 +4,7 @@
    also evaluates the Coq F15 class ([calm] = outside [Known_F15]) on the case's input, so that the
    harness's mirror of that predicate is checked on every generated case. *)
 From Coq Require Import String.
-Require Import AV.Lib.Base AV.Lib.V AV.H1.ConnRec AV.H1.ConnState AV.H1.ConnQuiet.
+Require Import AV.Lib.Base AV.Lib.V AV.H1.ConnRec AV.H1.ConnState AV.H1.ConnQuiet AV.H1.ConnExpect.
 Open Scope N_scope.
 
 Record case := mkCase { c_cfg : cfg; c_hs : list (list hact); c_rounds : list round }.
@@ -39,6 +39,12 @@ Fixpoint run_rounds (c : cfg) (rs : list round) (s : st) : list V :=
   end.
 
 Definition run_conn (k : case) : V := VL (run_rounds (c_cfg k) (c_rounds k) (init (c_cfg k) (c_hs k))).
-Definition run_C03 (k : case) : V :=
-  VL (run_rounds (c_cfg k) (c_rounds k) (init (c_cfg k) (c_hs k)) ++
-      [VT "calm" [VBool (calm (c_cfg k) (number 0 (c_hs k)) (poll_arrivals (c_rounds k)))]]).
+(* a C03 case carries one expect script per request (XNone: no `Expect` header). ExpectCall followed
+   by ServiceCall is one call future on behalf of the request (H1/ConnExpect.v): the model runs the
+   desugared scripts; the class is evaluated on them as well. *)
+Record xcase := mkXCase { x_case : case; x_ex : list eact }.
+Definition run_C03 (x : xcase) : V :=
+  let k := x_case x in
+  let hs := desugar (x_ex x) (c_hs k) in
+  VL (run_rounds (c_cfg k) (c_rounds k) (init (c_cfg k) hs) ++
+      [VT "calm" [VBool (calm (c_cfg k) (number 0 hs) (poll_arrivals (c_rounds k)))]]).
